@@ -7,6 +7,7 @@ import (
 	"fmt"
 	"math"
 	"reflect"
+	"strconv"
 	"strings"
 	"time"
 
@@ -32,6 +33,11 @@ func c17Freq(c *core.Ctx, hz int64) bool {
 	b, err := f.MarshalJSON()
 	if err != nil {
 		c.Violate("C17|frequency|marshal-error", "%d: %v", hz, err)
+		return false
+	}
+	// the JSON value is the frequency in MHz (Backend Interfaces): parse it independently
+	if mhz, perr := strconv.ParseFloat(string(b), 64); perr != nil || math.Abs(mhz*1e6-float64(hz)) > 0.25 {
+		c.Violate("C17|frequency|not-mhz", "Frequency %d Hz is written as %s, expected %v MHz", hz, b, float64(hz)/1e6)
 		return false
 	}
 	var g backend.Frequency
@@ -466,6 +472,9 @@ func runC17(c *core.Ctx) {
 				c.Violate("C17|percentage|marshal-error", "%d: %v", p, err)
 				continue
 			}
+			if f, perr := strconv.ParseFloat(string(b), 64); perr != nil || math.Abs(f*100-float64(p)) > 1e-6 {
+				c.Violate("C17|percentage|not-a-fraction", "Percentage %d is written as %s, expected %v", p, b, float64(p)/100)
+			}
 			if err := q.UnmarshalJSON(b); err != nil || int(q) != p {
 				c.Violate("C17|percentage|lossy", "Percentage %d -> %s -> %d (err %v)", p, b, int(q), err)
 			}
@@ -578,6 +587,13 @@ func runC17(c *core.Ctx) {
 			if err != nil {
 				c.Violate("C17|iso8601|marshal", "%v: %v", time.Time(ts), err)
 				break
+			}
+			// the text must be an RFC 3339 / ISO 8601 timestamp denoting the same second
+			var txt string
+			if json.Unmarshal(j, &txt) != nil {
+				c.Violate("C17|iso8601|not-a-string", "%s", j)
+			} else if pt, perr := time.Parse(time.RFC3339, txt); perr != nil || pt.Unix() != time.Time(ts).Unix() {
+				c.Violate("C17|iso8601|format", "%s is written as %s which an independent RFC 3339 parser reads as %v (%v)", time.Time(ts).Format(time.RFC3339Nano), j, pt, perr)
 			}
 			var back backend.ISO8601Time
 			if err := json.Unmarshal(j, &back); err != nil || time.Time(back).Unix() != time.Time(ts).Unix() {
